@@ -121,6 +121,39 @@ Section Cursor.
   Definition pages (src : list A) (limit : N) : pages_result :=
     pages_from (S (length src)) src limit 0.
 
+  (* COUNT output: pushObject counts and returns before anything is appended
+       sw.count++
+       if sw.output == outputCount { return sw.count < sw.limit, nil }
+     so numberItems / hitLimit are never touched: the reply is the integer sw.count and no cursor
+     (newScanWriter: without LIMIT the limit of a COUNT query is MaxUint64). *)
+  Fixpoint count_iterate (limit offset : N) (src : list A) (count : N) (n : N) : N :=
+    match src with
+    | [] => n
+    | o :: rest =>
+        let count := count + 1 in
+        if count <=? offset then count_iterate limit offset rest count n
+        else if stop o then n
+        else if test o then
+          let n := n + 1 in
+          if n <? limit then count_iterate limit offset rest count n else n
+        else count_iterate limit offset rest count n
+    end.
+  Definition count_query (src : list A) (cursor limit : N) : N :=
+    count_iterate limit cursor src 0 0.
+
+  (* the COUNT shortcut of cmdScan / cmdSearch (no filter): the index size minus the cursor, and,
+     as repaired by proposed_fixes/C12-count-shortcut-limit.diff, at most LIMIT *)
+  Definition count_shortcut (src : list A) (cursor limit : N) : N :=
+    let total := N.of_nat (length src) in
+    let c := if total <=? cursor then 0 else total - cursor in
+    if limit <? c then limit else c.
+
+  (* the shortcut as it is in the tree today (scan.go / search.go): LIMIT is ignored
+     (count := col.Count() - int(cursor); if count < 0 { count = 0 }) *)
+  Definition count_shortcut_unpatched (src : list A) (cursor : N) : N :=
+    let total := N.of_nat (length src) in
+    if total <=? cursor then 0 else total - cursor.
+
   (* what one query without an effective limit returns: every accepted entry before the first
      entry at which the early-exit test fires *)
   Fixpoint until_stop (src : list A) : list A :=
